@@ -113,6 +113,7 @@ type Eval struct {
 	allowedIdx map[string][]string // root modifies: single locations per component
 	safety   []string // props to tag safety obligations with (nil: none)
 	blocking []string // props to tag no-mutex-held-while-blocking obligations with
+	atMatched map[*AtClause]bool // at-clauses that matched some call site
 	muTags   map[string]int
 	entry    *State
 	trace    bool
@@ -127,7 +128,7 @@ type Eval struct {
 }
 
 func NewEval(p *Program) *Eval {
-	e := &Eval{p: p, siteCnt: map[string]int{}, muTags: map[string]int{}, prov: map[string]string{}, provGhost: map[string]bool{}, mapFrom: map[string]string{}}
+	e := &Eval{p: p, siteCnt: map[string]int{}, muTags: map[string]int{}, prov: map[string]string{}, provGhost: map[string]bool{}, mapFrom: map[string]string{}, atMatched: map[*AtClause]bool{}}
 	e.c = NewCtx(p)
 	return e
 }
@@ -193,6 +194,10 @@ func (e *Eval) declField(st types.Type, i int) string {
 	switch s.Field(i).Type().Underlying().(type) {
 	case *types.Pointer, *types.Map, *types.Chan:
 		e.c.ptrComps[comp] = "field"
+	case *types.Slice:
+		e.c.ptrComps[comp] = "slicefield"
+	case *types.Interface:
+		e.c.ptrComps[comp] = "ifacefield"
 	}
 	return comp
 }
@@ -371,6 +376,12 @@ func (e *Eval) closureAxiom(comp, term, top string) string {
 	}
 	if kind == "field" {
 		return fmt.Sprintf("(forall ((x Int)) (! (<= (select %s x) %s) :pattern ((select %s x))))", term, top, term)
+	}
+	if kind == "slicefield" {
+		return fmt.Sprintf("(forall ((x Int)) (! (<= (s.arr (select %s x)) %s) :pattern ((select %s x))))", term, top, term)
+	}
+	if kind == "ifacefield" {
+		return fmt.Sprintf("(forall ((x Int)) (! (<= (i.val (select %s x)) %s) :pattern ((select %s x))))", term, top, term)
 	}
 	if kind == "mapkey" {
 		return fmt.Sprintf("(forall ((m Int) (k Int)) (! (=> (select (select %s m) k) (<= k %s)) :pattern ((select (select %s m) k))))", term, top, term)
